@@ -4,6 +4,7 @@ import (
 	"bytes"
 	"errors"
 	"fmt"
+	mrand "math/rand"
 	"strings"
 	"testing"
 
@@ -19,12 +20,31 @@ import (
 // makerScenario runs one two-node swap to one of the endings and lets monitors subscribe first.
 // endings: preimage | coop | csv | csv-early (csv callback delivered one block early first)
 func makerScenario(r *Run, seed int64, chain, typ, ending string, attach func(p *pair)) *pair {
-	p := newPair(seed, pairOpts{chain: chain, typ: typ})
+	// the responder's operator configured premium rates (the defaults are 0 ppm for swap-in, 2000 for swap-out)
+	rates := []int64{0, 777, 2000, 10000, 50000}
+	p := newPair(seed, pairOpts{chain: chain, typ: typ, cfgB: func(c *sim.NodeConfig) {
+		prng := mrand.New(mrand.NewSource(seed ^ 0x9e37))
+		c.PremiumPPM = map[string]int64{}
+		for _, k := range []string{"btc/in", "btc/out", "lbtc/in", "lbtc/out"} {
+			c.PremiumPPM[k] = rates[prng.Intn(len(rates))]
+		}
+	}})
 	mk := p.maker()
 	// random funding layouts
 	mk.BtcW.FundingLayout = func() (int, int, int) {
 		ch := p.rng.Intn(3)
 		return 1 + p.rng.Intn(5), p.rng.Intn(ch + 1), ch
+	}
+	// every third Bitcoin funding transaction also pays a second, different amount to the swap address,
+	// before or after the swap output (a wallet batching two sends to one address)
+	mk.BtcW.SameScriptExtra = func(amount uint64) (int64, bool) {
+		switch p.rng.Intn(6) {
+		case 0:
+			return int64(amount/3) + 1, true
+		case 1:
+			return int64(amount) + 1000, p.rng.Intn(2) == 0
+		}
+		return 0, false
 	}
 	mk.LbtcW.Layout = func() (int, int, bool) {
 		ch := 1 + p.rng.Intn(2)
@@ -177,11 +197,21 @@ func c08Judge(r *Run, p *pair, o *c08Obs, payload []byte, seedInfo string) {
 		r.Violate("gt", "C08|announced-tx-not-on-chain|"+tag, seedInfo, nil)
 		return
 	}
+	// the swap output: pays the swap script and (where the value is visible) the negotiated amount; a tx may
+	// pay the same script a second time with another value
 	idx := -1
 	for i, out := range ct.Outs {
-		if bytes.Equal(out.Script, want) {
+		if bytes.Equal(out.Script, want) && (p.chain != "btc" || out.Value == int64(openSat)) {
 			idx = i
 			break
+		}
+	}
+	if idx < 0 {
+		for i, out := range ct.Outs {
+			if bytes.Equal(out.Script, want) {
+				idx = i
+				break
+			}
 		}
 	}
 	if idx < 0 {
@@ -382,7 +412,7 @@ func TestC03(t *testing.T) {
 	r.Rule = "real two-node swaps driven to each ending (preimage claim by the taker, cooperative claim after an injected payment failure, CSV refund after the taker died, CSV refund attempted one block early) × chain × swap type × wallet funding layout; every spending transaction handed to the chain simulator is judged by consensus script execution (btcd engine / template interpreter with Elements sighash), BIP68, and by the output/fee/ownership oracle. distinct = (chain, type, spend kind, accepted/rejected reason, spent output index)"
 	r.Assumptions = []string{"Bitcoin wallet adapter is the harness mirror of clightning_wallet.go over the real onchain.BitcoinOnChain helpers (real CLN/LND RPC adapters are not executed)", "chain simulator enforces script validity (btcd engine; template interpreter for Liquid), BIP68 and range proofs"}
 	endings := []string{"preimage", "coop", "csv", "csv-early"}
-	n := r.N(32, 640)
+	n := r.N(128, 1280)
 	seen := map[string]int{}
 	var smu = &r.mu
 	parallelDo(n, 12, func(i int) {
